@@ -91,7 +91,56 @@ func setterField(p *core.Prog, rel, tname, method string, idx int) (core.Field, 
 			}
 		}
 	}
+	// the setter keeps a copy: the stored value is built from the parameter (append / copy / phi)
+	for _, b := range m.Blocks {
+		for _, in := range b.Instrs {
+			if st, ok := in.(*ssa.Store); ok && builtFromParam(st.Val, prm, 0) {
+				if f, ok := core.FieldOf(st.Addr); ok {
+					return f, true
+				}
+			}
+		}
+	}
 	return core.Field{}, false
+}
+
+// builtFromParam: v is the parameter, or a slice assembled from it (append with
+// the parameter as an operand, a buffer the parameter was copied into, a
+// re-slice, a merge of such values).
+func builtFromParam(v ssa.Value, prm *ssa.Parameter, d int) bool {
+	if d > 5 {
+		return false
+	}
+	v = core.Strip(v)
+	switch x := v.(type) {
+	case *ssa.Parameter:
+		return x == prm
+	case *ssa.Phi:
+		for _, e := range x.Edges {
+			if builtFromParam(e, prm, d+1) {
+				return true
+			}
+		}
+	case *ssa.Slice:
+		return builtFromParam(x.X, prm, d+1)
+	case *ssa.Call:
+		if core.CalleeName(x) == "builtin:append" {
+			for _, a := range x.Call.Args {
+				if builtFromParam(a, prm, d+1) {
+					return true
+				}
+			}
+		}
+	case *ssa.MakeSlice:
+		if x.Referrers() != nil {
+			for _, rf := range *x.Referrers() {
+				if c, ok := rf.(*ssa.Call); ok && core.CalleeName(c) == "builtin:copy" && len(c.Call.Args) == 2 && c.Call.Args[0] == ssa.Value(x) && builtFromParam(c.Call.Args[1], prm, d+1) {
+					return true
+				}
+			}
+		}
+	}
+	return false
 }
 
 // funcsWhere returns the declared functions of a package satisfying pred.
